@@ -171,24 +171,28 @@ class QintImp(int, Qtype):
         (x << 3) + (x << 1) # Here 10*x is computed as x*2^3 + x*2
         """
 
-        # Multiply t_num by the nearest n | 2**n < t_const
+        result_ttype = cast(TType, result_type)
+
+        if const == 0:
+            return result_type.fill((result_ttype, []))
+
+        # Multiply t_num by the nearest n | 2**n <= t_const
         n = 1
         while 2**n <= const:
             n += 1
         if 2**n > const:
             n -= 1
 
-        result_ttype = cast(TType, result_type)
+        t_num_r = result_type.fill(
+            result_type.shift_left((result_ttype, t_num[1]), n)
+        )
 
-        t_num_r = result_type.shift_left((result_ttype, t_num[1]), n)
-
-        # Shift t_const by t_const - 2**n
+        # Add t_num multiplied by the (even) remainder t_const - 2**n
         r = const - 2**n
         if r > 0:
-            # Add the shift result to t_num
             res = result_type.add(
                 (result_ttype, t_num_r[1]),
-                result_type.shift_left((result_ttype, t_num[1]), int(r / 2)),
+                result_type.fill(QintImp.mul_even_const(t_num, r, result_type)),
             )
         else:
             res = (result_ttype, t_num_r[1])
